@@ -587,6 +587,12 @@ func VH06g_many_contexts() {
 	if closeAt >= 0 {
 		verif.Assert(cs[closeAt].Close() == nil, lab+"/context-close")
 	}
+	// one context (any position, or none) has READQ-LEN 0 and nobody receiving: it cannot take anything; its
+	// siblings are not affected by what it misses
+	zeroAt := verif.Choice("zero-queue", M+1) - 1
+	if zeroAt >= 0 && zeroAt != closeAt {
+		verif.Assert(cs[zeroAt].SetOption(mangos.OptionReadQLen, 0) == nil, lab+"/set-qlen-0")
+	}
 	for i := 0; i < M; i++ {
 		p0.Deliver([]byte{byte('a' + i), byte(i)})
 		verif.Quiesce()
@@ -597,6 +603,13 @@ func VH06g_many_contexts() {
 		if i == closeAt {
 			_, err := c.RecvMsg()
 			verif.Assert(err != nil, lab+"/closed-context-delivers")
+			continue
+		}
+		if i == zeroAt {
+			c := c
+			g := verif.Go("recv-zero", func() { c.RecvMsg() })
+			verif.Quiesce()
+			verif.Assert(!g.Done(), lab+"/context-without-queue-delivers-a-message-it-could-not-have-kept")
 			continue
 		}
 		for k := 0; k < 2; k++ {
